@@ -852,6 +852,19 @@ package kcp
 //@   requires @C10 [queued-packet-fits-mtu] cap(msg.buffer) == 1500 && len(msg.buffer) + self.ov() <= 1500
 //@   requires len(msg.buffer) >= self.headerSize + 4
 //
+// Tuning setters hand their arguments to the core unchanged and in order.
+//@ func UDPSession.SetWindowSize
+//@   requires s.imm()
+//@   modifies everything
+//@   callsite KCP.WndSize requires @C04 [the-window-sizes-reach-the-core-in-order] arg_sndwnd == sndwnd && arg_rcvwnd == rcvwnd && arg_kcp == s.kcp
+//@ func UDPSession.SetNoDelay
+//@   requires s.imm()
+//@   modifies everything
+//@   callsite KCP.NoDelay requires @C18 [the-nodelay-parameters-reach-the-core-in-order] arg_nodelay == nodelay && arg_interval == interval && arg_resend == resend && arg_nc == nc && arg_kcp == s.kcp
+//@ func UDPSession.SetStreamMode
+//@   requires s.imm()
+//@   modifies everything
+//@   section UDPSession.mu ensures @C01 [stream-mode-is-what-was-asked-for] (enable ==> s.kcp.stream == 1) && (!enable ==> s.kcp.stream == 0)
 //@ func UDPSession.SetMtu
 //@   requires s.imm()
 //@   modifies everything
